@@ -113,6 +113,11 @@ def check_array(out, facts):
     forgets_all = [e for e in events(t) if e[0] == 'OWN' and e[1] == 'forget']
     if len(stars) != 1:
         why.append('expected exactly one element loop at top level')
+    decs_all = [e for e in events(t) if e[0] == 'dec']
+    stars_all = [e for e in sym.walk(t) if e[0] == 'star']
+    if len(decs_all) != 1 or len(stars_all) != 1:
+        why.append('elements are decoded in %d place(s) / %d loop(s): every element must be decoded by the one loop that runs under the '
+                   'drop guard (a second path, e.g. a shortcut for zero-sized elements, leaks or double-drops what it decoded when it stops part-way)' % (len(decs_all), len(stars_all)))
     if len(forgets_all) != 1 or len(forgets_top) != 1:
         why.append('the guard must be disarmed (mem::forget) exactly once, unconditionally after the loop; found %d (top level %d): a missing forget double-drops, a conditional one leaks' % (len(forgets_all), len(forgets_top)))
     elif stars and not (forgets_top[0] > stars[0]):
